@@ -1,7 +1,421 @@
-(* SeqProofs.v -- C14 lemmas (heap frame lemmas, per-operation refinement). *)
+(* SeqProofs.v -- C14: heap frame lemmas, the pool invariant and the Array
+   refinement proof (generic in the element type). *)
 From Coq Require Import NArith List Arith Bool Lia.
-From Qv Require Import SeqModel.
+From Qv Require Import SeqModel SeqLists.
 Import ListNotations.
 
 Lemma upd_same : forall T (f : nat -> T) i v, upd f i v i = v.
 Proof. intros T f i v. unfold upd. now rewrite Nat.eqb_refl. Qed.
+Lemma upd_other : forall T (f : nat -> T) i v k, k <> i -> upd f i v k = f k.
+Proof. intros T f i v k H. unfold upd. destruct (Nat.eqb_spec k i); [contradiction|reflexivity]. Qed.
+
+(* ---------- splice ---------- *)
+Section Splice.
+Context {T : Type}.
+Lemma splice_length : forall (c : list T) off l, off + length l <= length c -> length (splice c off l) = length c.
+Proof.
+  intros c off l H. unfold splice. rewrite !app_length, firstn_length, skipn_length. lia.
+Qed.
+Lemma splice_nil : forall (c : list T) off, splice c off [] = c.
+Proof. intros c off. unfold splice. cbn [length app]. rewrite Nat.add_0_r. apply firstn_skipn. Qed.
+Lemma firstn_splice_le : forall (c : list T) off l k, k <= off -> off <= length c ->
+  firstn k (splice c off l) = firstn k c.
+Proof.
+  intros c off l k Hk Ho. unfold splice. rewrite firstn_app.
+  rewrite firstn_length. replace (k - Nat.min off (length c)) with 0 by lia.
+  rewrite firstn_O, app_nil_r, firstn_firstn. f_equal. lia.
+Qed.
+Lemma firstn_splice_app : forall (c : list T) off l, off <= length c ->
+  firstn (off + length l) (splice c off l) = firstn off c ++ l.
+Proof.
+  intros c off l Ho. unfold splice. rewrite firstn_app.
+  rewrite firstn_length. replace (Nat.min off (length c)) with off by lia.
+  rewrite (firstn_all2 (firstn off c)) by (rewrite firstn_length; lia).
+  replace (off + length l - off) with (length l) by lia.
+  rewrite firstn_app, Nat.sub_diag, firstn_O, app_nil_r. now rewrite firstn_all.
+Qed.
+Lemma nth_splice_at : forall (c : list T) off x d, off <= length c -> nth off (splice c off [x]) d = x.
+Proof.
+  intros c off x d Ho. unfold splice.
+  rewrite app_nth2 by (rewrite firstn_length; lia).
+  rewrite firstn_length. replace (off - Nat.min off (length c)) with 0 by lia. reflexivity.
+Qed.
+End Splice.
+
+(* ---------- heap ---------- *)
+Section HeapFacts.
+Context {A : Type} (junk : A).
+Notation heap := (@heap A).
+Notation world := (@world A).
+
+Definition hwf (h : heap) : Prop := forall b, next h <= b -> cells_of h b = None.
+
+Lemma live_lt : forall h b c, hwf h -> cells_of h b = Some c -> b < next h.
+Proof.
+  intros h b c Hw Hc. destruct (Nat.lt_ge_cases b (next h)) as [|Hge]; [assumption|].
+  rewrite (Hw b Hge) in Hc. discriminate.
+Qed.
+
+(* h' is h with block b set to v *)
+Definition hupd (h h' : heap) (b : nat) (v : option (list A)) : Prop :=
+  cells_of h' b = v /\ (forall b', b' <> b -> cells_of h' b' = cells_of h b') /\ next h' = next h.
+
+Lemma hupd_hwf : forall h h' b v, hwf h -> hupd h h' b v -> (v = None \/ b < next h) -> hwf h'.
+Proof.
+  intros h h' b v Hw (Hb & Ho & Hn) Hv b' Hge. rewrite Hn in Hge.
+  destruct (Nat.eq_dec b' b) as [->|Hne].
+  - destruct Hv as [->|Hlt]; [assumption|lia].
+  - rewrite Ho by assumption. now apply Hw.
+Qed.
+
+Definition halloc (h : heap) (n : nat) : heap := fst (alloc junk h n).
+Lemma alloc_eq : forall h n, alloc junk h n = (halloc h n, next h).
+Proof. reflexivity. Qed.
+Lemma halloc_new : forall h n, cells_of (halloc h n) (next h) = Some (repeat junk n).
+Proof. intros. cbn. apply upd_same. Qed.
+Lemma halloc_old : forall h n b, b <> next h -> cells_of (halloc h n) b = cells_of h b.
+Proof. intros. cbn. now apply upd_other. Qed.
+Lemma halloc_next : forall h n, next (halloc h n) = S (next h).
+Proof. reflexivity. Qed.
+Lemma halloc_hwf : forall h n, hwf h -> hwf (halloc h n).
+Proof.
+  intros h n Hw b Hge. rewrite halloc_next in Hge. rewrite halloc_old by lia. apply Hw. lia.
+Qed.
+Opaque halloc.
+
+Lemma rd_range_ok : forall (h : heap) b c off n, cells_of h b = Some c -> off + n <= length c ->
+  rd_range h (Some b) off n = Ok (firstn n (skipn off c)).
+Proof.
+  intros h b c off n Hc Hl. unfold rd_range. destruct n as [|n]; [reflexivity|].
+  rewrite Hc. destruct (Nat.leb_spec (off + S n) (length c)); [reflexivity|lia].
+Qed.
+Lemma rd_range_0 : forall (h : heap) p off, rd_range h p off 0 = Ok [].
+Proof. reflexivity. Qed.
+
+Lemma wr_range_ok : forall (h : heap) b c off l, cells_of h b = Some c -> off + length l <= length c ->
+  exists h', wr_range h (Some b) off l = Ok h' /\ hupd h h' b (Some (splice c off l)).
+Proof.
+  intros h b c off l Hc Hl. unfold wr_range. destruct l as [|x l].
+  - exists h. split; [reflexivity|]. rewrite splice_nil. repeat split; auto.
+  - rewrite Hc. destruct (Nat.leb_spec (off + length (x :: l)) (length c)); [|lia].
+    eexists. split; [reflexivity|]. repeat split; cbn.
+    + apply upd_same.
+    + intros b' Hb. now apply upd_other.
+Qed.
+Lemma wr_range_nil : forall (h : heap) p off, wr_range h p off [] = Ok h.
+Proof. reflexivity. Qed.
+
+Lemma free_ok : forall (h : heap) b c, cells_of h b = Some c ->
+  exists h', free h (Some b) = Ok h' /\ hupd h h' b None.
+Proof.
+  intros h b c Hc. unfold free. rewrite Hc. eexists. split; [reflexivity|]. repeat split; cbn.
+  - apply upd_same.
+  - intros b' Hb. now apply upd_other.
+Qed.
+
+(* ---------- the pool invariant, generic in the ownership predicate ---------- *)
+Section Inv.
+Variable own : heap -> obj -> list A -> Prop.
+Hypothesis own_local : forall h h' o l,
+  (forall b, blk o = Some b -> cells_of h' b = cells_of h b) -> own h o l -> own h' o l.
+Hypothesis own_live : forall h o l b, own h o l -> blk o = Some b -> cells_of h b <> None.
+Hypothesis own_null : forall h, own h null_obj [].
+
+Definition inv (w : world) (s : nat -> list A) : Prop :=
+  hwf (hp w) /\ (forall k, own (hp w) (ob w k) (s k)) /\
+  (forall k k' b, k <> k' -> blk (ob w k) = Some b -> blk (ob w k') <> Some b).
+
+Lemma inv_blk_lt : forall w s k b, inv w s -> blk (ob w k) = Some b -> b < next (hp w).
+Proof.
+  intros w s k b (Hw & Ho & _) Hb.
+  destruct (cells_of (hp w) b) as [c|] eqn:E.
+  - exact (live_lt _ _ _ Hw E).
+  - exfalso. exact (own_live _ _ _ _ (Ho k) Hb E).
+Qed.
+
+(* object i replaced; only its old block and fresh blocks differ *)
+Lemma inv_set : forall w s i h' o' s',
+  inv w s -> hwf h' ->
+  (forall b, b < next (hp w) -> blk (ob w i) <> Some b -> cells_of h' b = cells_of (hp w) b) ->
+  own h' o' (s' i) ->
+  (forall k, k <> i -> s' k = s k) ->
+  (forall b, blk o' = Some b -> next (hp w) <= b \/ blk (ob w i) = Some b) ->
+  inv (mkW h' (upd (ob w) i o')) s'.
+Proof.
+  intros w s i h' o' s' Hinv Hw' Hfr Hown Hs' Hnew.
+  pose proof Hinv as (Hw & Ho & Hd).
+  split; [exact Hw'|]. split.
+  - intros k. cbn [hp ob]. destruct (Nat.eq_dec k i) as [->|Hne].
+    + now rewrite upd_same.
+    + rewrite upd_other by assumption. rewrite Hs' by assumption.
+      apply own_local with (h := hp w); [|apply Ho].
+      intros b Hb. apply Hfr.
+      * eapply inv_blk_lt; eauto.
+      * intros Hi. exact (Hd k i b Hne Hb Hi).
+  - intros k k' b Hkk. cbn [ob].
+    destruct (Nat.eq_dec k i) as [->|Hk]; destruct (Nat.eq_dec k' i) as [->|Hk'];
+      try contradiction; rewrite ?upd_same, ?upd_other by assumption.
+    + intros Hb Hb'. destruct (Hnew b Hb) as [Hge|Hold].
+      * pose proof (inv_blk_lt w s k' b Hinv Hb'). lia.
+      * exact (Hd i k' b Hkk Hold Hb').
+    + intros Hb Hb'. destruct (Hnew b Hb') as [Hge|Hold].
+      * pose proof (inv_blk_lt w s k b Hinv Hb). lia.
+      * exact (Hd k i b Hkk Hb Hold).
+    + apply Hd; assumption.
+Qed.
+
+(* same, with the frame condition stated on the other objects' blocks only *)
+Lemma inv_set' : forall w s i h' o' s',
+  inv w s -> hwf h' ->
+  (forall k b, k <> i -> blk (ob w k) = Some b -> cells_of h' b = cells_of (hp w) b) ->
+  own h' o' (s' i) ->
+  (forall k, k <> i -> s' k = s k) ->
+  (forall b, blk o' = Some b -> next (hp w) <= b \/ blk (ob w i) = Some b) ->
+  inv (mkW h' (upd (ob w) i o')) s'.
+Proof.
+  intros w s i h' o' s' Hinv Hw' Hfr Hown Hs' Hnew.
+  pose proof Hinv as (Hw & Ho & Hd).
+  split; [exact Hw'|]. split.
+  - intros k. cbn [hp ob]. destruct (Nat.eq_dec k i) as [->|Hne].
+    + now rewrite upd_same.
+    + rewrite upd_other by assumption. rewrite Hs' by assumption.
+      apply own_local with (h := hp w); [|apply Ho].
+      intros b Hb. now apply (Hfr k).
+  - intros k k' b Hkk. cbn [ob].
+    destruct (Nat.eq_dec k i) as [->|Hk]; destruct (Nat.eq_dec k' i) as [->|Hk'];
+      try contradiction; rewrite ?upd_same, ?upd_other by assumption.
+    + intros Hb Hb'. destruct (Hnew b Hb) as [Hge|Hold].
+      * pose proof (inv_blk_lt w s k' b Hinv Hb'). lia.
+      * exact (Hd i k' b Hkk Hold Hb').
+    + intros Hb Hb'. destruct (Hnew b Hb') as [Hge|Hold].
+      * pose proof (inv_blk_lt w s k b Hinv Hb). lia.
+      * exact (Hd k i b Hkk Hb Hold).
+    + apply Hd; assumption.
+Qed.
+
+(* same, with the distinctness of the new object's block stated directly *)
+Lemma inv_set_d : forall w s i h' o' s',
+  inv w s -> hwf h' ->
+  (forall k b, k <> i -> blk (ob w k) = Some b -> cells_of h' b = cells_of (hp w) b) ->
+  own h' o' (s' i) ->
+  (forall k, k <> i -> s' k = s k) ->
+  (forall k b, k <> i -> blk o' = Some b -> blk (ob w k) <> Some b) ->
+  inv (mkW h' (upd (ob w) i o')) s'.
+Proof.
+  intros w s i h' o' s' Hinv Hw' Hfr Hown Hs' Hnew.
+  pose proof Hinv as (Hw & Ho & Hd).
+  split; [exact Hw'|]. split.
+  - intros k. cbn [hp ob]. destruct (Nat.eq_dec k i) as [->|Hne].
+    + now rewrite upd_same.
+    + rewrite upd_other by assumption. rewrite Hs' by assumption.
+      apply own_local with (h := hp w); [|apply Ho].
+      intros b Hb. now apply (Hfr k).
+  - intros k k' b Hkk. cbn [ob].
+    destruct (Nat.eq_dec k i) as [->|Hk]; destruct (Nat.eq_dec k' i) as [->|Hk'];
+      try contradiction; rewrite ?upd_same, ?upd_other by assumption.
+    + intros Hb Hb'. exact (Hnew k' b Hk' Hb Hb').
+    + intros Hb Hb'. exact (Hnew k b Hk Hb' Hb).
+    + apply Hd; assumption.
+Qed.
+
+(* the heap changed only outside the blocks owned by the pool *)
+Lemma inv_heap : forall w s h',
+  inv w s -> hwf h' ->
+  (forall k b, blk (ob w k) = Some b -> cells_of h' b = cells_of (hp w) b) ->
+  inv (mkW h' (ob w)) s.
+Proof.
+  intros w s h' (Hw & Ho & Hd) Hw' Hfr. split; [exact Hw'|]. split; [|exact Hd].
+  intros k. cbn [hp ob]. apply own_local with (h := hp w); [|apply Ho].
+  intros b Hb. now apply (Hfr k).
+Qed.
+
+Lemma inv_ob_ext : forall w w' s, hp w' = hp w -> (forall k, ob w' k = ob w k) -> inv w s -> inv w' s.
+Proof.
+  intros w w' s Hh Ho (Hw & Hown & Hd). split; [now rewrite Hh|]. split.
+  - intros k. rewrite Hh, Ho. apply Hown.
+  - intros k k' b. rewrite !Ho. apply Hd.
+Qed.
+
+Lemma inv_distinct : forall w s k k' b, inv w s -> k <> k' -> blk (ob w k) = Some b -> blk (ob w k') <> Some b.
+Proof. intros w s k k' b (_ & _ & Hd). apply Hd. Qed.
+
+(* object i takes over object j's state, j becomes empty *)
+Lemma inv_move : forall w s i j h' s',
+  inv w s -> i <> j -> hwf h' ->
+  (forall b, b < next (hp w) -> blk (ob w i) <> Some b -> cells_of h' b = cells_of (hp w) b) ->
+  s' i = s j -> s' j = [] -> (forall k, k <> i -> k <> j -> s' k = s k) ->
+  inv (mkW h' (upd (upd (ob w) i (ob w j)) j null_obj)) s'.
+Proof.
+  intros w s i j h' s' Hinv Hij Hw' Hfr Hsi Hsj Hsk.
+  pose proof Hinv as (Hw & Ho & Hd).
+  assert (Hloc : forall k, k <> i -> own h' (ob w k) (s k)).
+  { intros k Hk. apply own_local with (h := hp w); [|apply Ho].
+    intros b Hb. apply Hfr; [eapply inv_blk_lt; eauto|]. intros Hi. exact (Hd k i b Hk Hb Hi). }
+  split; [exact Hw'|]. split.
+  - intros k. cbn [hp ob]. destruct (Nat.eq_dec k j) as [->|Hkj].
+    + rewrite upd_same, Hsj. apply own_null.
+    + rewrite upd_other by assumption. destruct (Nat.eq_dec k i) as [->|Hki].
+      * rewrite upd_same, Hsi. apply Hloc. auto.
+      * rewrite upd_other by assumption. rewrite Hsk by assumption. now apply Hloc.
+  - intros k k' b Hkk. cbn [ob].
+    assert (Hget : forall x, blk (upd (upd (ob w) i (ob w j)) j null_obj x) = Some b ->
+                   x <> j /\ blk (ob w (if Nat.eq_dec x i then j else x)) = Some b).
+    { intros x. destruct (Nat.eq_dec x j) as [->|Hxj].
+      - rewrite upd_same. discriminate.
+      - rewrite upd_other by assumption. destruct (Nat.eq_dec x i) as [->|Hxi].
+        + rewrite upd_same. auto.
+        + rewrite upd_other by assumption. auto. }
+    intros Hb Hb'. apply Hget in Hb. apply Hget in Hb'.
+    destruct Hb as (Hkj & Hb), Hb' as (Hk'j & Hb').
+    destruct (Nat.eq_dec k i) as [->|Hki]; destruct (Nat.eq_dec k' i) as [->|Hk'i]; try contradiction.
+    + exact (Hd j k' b (fun e => Hk'j (eq_sym e)) Hb Hb').
+    + exact (Hd k j b Hkj Hb Hb').
+    + exact (Hd k k' b Hkk Hb Hb').
+Qed.
+
+Lemma inv_ext : forall w s s', inv w s -> (forall k, s' k = s k) -> inv w s'.
+Proof.
+  intros w s s' (Hw & Ho & Hd) He. split; [assumption|]. split; [|assumption].
+  intros k. rewrite He. apply Ho.
+Qed.
+End Inv.
+
+(* ---------- Array / StringStream ownership: {blk; size; cap} ---------- *)
+Definition owns (h : heap) (o : obj) (l : list A) : Prop :=
+  match blk o with
+  | None => size o = 0 /\ cap o = 0 /\ l = []
+  | Some b => exists c, cells_of h b = Some c /\ length c = cap o /\ size o <= cap o /\ l = firstn (size o) c
+  end.
+
+Lemma owns_local : forall h h' o l,
+  (forall b, blk o = Some b -> cells_of h' b = cells_of h b) -> owns h o l -> owns h' o l.
+Proof.
+  intros h h' o l Hf. unfold owns. destruct (blk o) as [b|]; [|auto].
+  intros (c & Hc & R). exists c. rewrite Hf by reflexivity. auto.
+Qed.
+Lemma owns_live : forall h o l b, owns h o l -> blk o = Some b -> cells_of h b <> None.
+Proof.
+  intros h o l b. unfold owns. intros H Hb. rewrite Hb in H. destruct H as (c & Hc & _). congruence.
+Qed.
+Lemma owns_null : forall h, owns h null_obj [].
+Proof. intros h. cbn. auto. Qed.
+
+Lemma owns_len : forall h o l, owns h o l -> length l = size o /\ size o <= cap o.
+Proof.
+  intros h o l. unfold owns. destruct (blk o) as [b|].
+  - intros (c & Hc & Hl & Hs & ->). rewrite firstn_length. lia.
+  - intros (-> & -> & ->). auto.
+Qed.
+
+(* reading any part of the constructed prefix *)
+Lemma owns_read : forall h o l off n, owns h o l -> off + n <= size o ->
+  rd_range h (blk o) off n = Ok (firstn n (skipn off l)).
+Proof.
+  intros h o l off n. unfold owns. destruct (blk o) as [b|].
+  - intros (c & Hc & Hl & Hs & ->) Hn. rewrite (rd_range_ok h b c) by (auto; lia). f_equal.
+    rewrite skipn_firstn_comm, firstn_firstn. f_equal. lia.
+  - intros (Hs & _ & ->) Hn. assert (n = 0) as -> by lia. reflexivity.
+Qed.
+Lemma owns_read_all : forall h o l, owns h o l -> rd_range h (blk o) 0 (size o) = Ok l.
+Proof.
+  intros h o l H. rewrite (owns_read h o l 0 (size o) H) by lia. cbn [skipn].
+  destruct (owns_len _ _ _ H) as (Hl & _). rewrite <- Hl. now rewrite firstn_all.
+Qed.
+
+(* releasing the storage of an object *)
+Lemma owns_free : forall h o l, hwf h -> owns h o l ->
+  exists h', free h (blk o) = Ok h' /\ hwf h' /\ next h' = next h /\
+             (forall b, blk o <> Some b -> cells_of h' b = cells_of h b).
+Proof.
+  intros h o l Hw. unfold owns. destruct (blk o) as [b|].
+  - intros (c & Hc & _). destruct (free_ok h b c Hc) as (h' & Hf & Hu).
+    exists h'. split; [assumption|]. split; [eapply hupd_hwf; eauto|].
+    destruct Hu as (_ & Ho & Hn). split; [assumption|]. intros b' Hb'. apply Ho. congruence.
+  - intros _. exists h. cbn. auto.
+Qed.
+
+(* writing into the storage of an object (x may be empty; then nothing is touched) *)
+Lemma owns_write : forall h o l off x, hwf h -> owns h o l -> off + length x <= cap o ->
+  exists h', wr_range h (blk o) off x = Ok h' /\ hwf h' /\ next h' = next h /\
+             (forall b, blk o <> Some b -> cells_of h' b = cells_of h b) /\
+             (forall sz, sz <= off -> off <= size o -> owns h' (mkObj (blk o) sz (cap o)) (firstn sz l)) /\
+             (off <= size o -> owns h' (mkObj (blk o) (off + length x) (cap o)) (firstn off l ++ x)).
+Proof.
+  intros h o l off x Hw. unfold owns. destruct (blk o) as [b|] eqn:Eb.
+  - intros (c & Hc & Hl & Hs & ->) Hx.
+    destruct (wr_range_ok h b c off x Hc ltac:(lia)) as (h' & Hwr & Hu).
+    exists h'. split; [assumption|]. split; [eapply hupd_hwf; eauto; right; eapply live_lt; eauto|].
+    destruct Hu as (Hb & Ho & Hn). split; [assumption|].
+    split; [intros b' Hb'; apply Ho; congruence|].
+    split.
+    + intros sz Hsz Hoff. cbn [blk size cap]. exists (splice c off x). split; [assumption|].
+      split; [rewrite splice_length; lia|]. split; [lia|].
+      rewrite firstn_splice_le by lia. rewrite firstn_firstn. f_equal. lia.
+    + intros Hoff. cbn [blk size cap]. exists (splice c off x). split; [assumption|].
+      split; [rewrite splice_length; lia|]. split; [lia|].
+      rewrite firstn_splice_app by lia. f_equal. rewrite firstn_firstn. f_equal. lia.
+  - intros (Hs & Hc & ->) Hx. assert (x = []) as -> by (destruct x; [reflexivity|cbn in Hx; lia]).
+    exists h. split; [reflexivity|]. split; [assumption|]. split; [reflexivity|]. split; [auto|].
+    cbn [blk size cap length]. split.
+    + intros sz Hsz Hoff. assert (sz = 0) as -> by lia. rewrite Hc. cbn. auto.
+    + intros Hoff. assert (off = 0) as -> by lia. rewrite Hc. cbn. auto.
+Qed.
+
+(* a freshly allocated block, filled from offset 0 *)
+Lemma fresh_fill : forall h n x, hwf h -> length x <= n ->
+  exists h', wr_range (halloc h n) (Some (next h)) 0 x = Ok h' /\ hwf h' /\ next h' = S (next h) /\
+             (forall b, b <> next h -> cells_of h' b = cells_of h b) /\
+             owns h' (mkObj (Some (next h)) (length x) n) x.
+Proof.
+  intros h n x Hw Hx.
+  destruct (wr_range_ok (halloc h n) (next h) (repeat junk n) 0 x (halloc_new h n)
+              ltac:(rewrite repeat_length; cbn; lia)) as (h' & Hwr & Hb & Ho & Hn).
+  exists h'. split; [assumption|].
+  split.
+  { eapply hupd_hwf; [apply halloc_hwf; eassumption| split; [eassumption|split; eassumption] |].
+    right. rewrite halloc_next. lia. }
+  split; [rewrite Hn; apply halloc_next|].
+  split; [intros b Hne; rewrite Ho by assumption; now apply halloc_old|].
+  cbn [owns blk size cap]. unfold owns. cbn [blk size cap].
+  exists (splice (repeat junk n) 0 x). split; [assumption|].
+  split; [rewrite splice_length; rewrite repeat_length; cbn; lia|]. split; [assumption|].
+  pose proof (firstn_splice_app (repeat junk n) 0 x ltac:(lia)) as E. cbn [Nat.add firstn app] in E. now rewrite E.
+Qed.
+
+Definition ainv := inv owns.
+Definition ainv_set := inv_set owns owns_local owns_live.
+Definition ainv_move := inv_move owns owns_local owns_live owns_null.
+Definition ainv_set' := inv_set' owns owns_local owns_live.
+Definition ainv_heap := inv_heap owns owns_local.
+Definition ainv_distinct := inv_distinct owns.
+Definition ainv_ob_ext := inv_ob_ext owns.
+
+Lemma skipn_splice : forall (c : list A) off x, off <= length c ->
+  firstn (length x) (skipn off (splice c off x)) = x.
+Proof.
+  intros c off x Ho. unfold splice. rewrite skipn_app.
+  rewrite firstn_length. replace (Nat.min off (length c)) with off by lia.
+  rewrite (skipn_all2 (firstn off c)) by (rewrite firstn_length; lia).
+  rewrite Nat.sub_diag. cbn [skipn app].
+  rewrite firstn_app, Nat.sub_diag, firstn_O, app_nil_r. apply firstn_all.
+Qed.
+
+(* reading back what was just written *)
+Lemma owns_write_read : forall h o l off x h', owns h o l -> off + length x <= cap o ->
+  wr_range h (blk o) off x = Ok h' -> rd_range h' (blk o) off (length x) = Ok x.
+Proof.
+  intros h o l off x h'. unfold owns. destruct (blk o) as [b|].
+  - intros (c & Hc & Hl & Hs & _) Hx Hwr.
+    destruct (wr_range_ok h b c off x Hc ltac:(lia)) as (h2 & Hwr2 & Hb & _).
+    rewrite Hwr in Hwr2. injection Hwr2 as ->.
+    rewrite (rd_range_ok _ _ _ off (length x) Hb) by (rewrite splice_length; lia).
+    f_equal. apply skipn_splice. lia.
+  - intros (_ & Hc & _) Hx _. assert (x = []) as -> by (destruct x; [reflexivity|cbn in Hx; lia]). reflexivity.
+Qed.
+
+Lemma ainv_obj : forall w s k, ainv w s -> owns (hp w) (ob w k) (s k).
+Proof. intros w s k (_ & H & _). apply H. Qed.
+Lemma ainv_hwf : forall w s, ainv w s -> hwf (hp w).
+Proof. intros w s (H & _). exact H. Qed.
+
+End HeapFacts.
